@@ -24,6 +24,8 @@ CLAIMED = {
          "socket()/bind()/setblocking()/close() follow the RawSocket model; connect_socket (abstract) creates/closes nothing; except* is encoded conservatively; the outer _staggered_race_connection_impl (task group, addrinfo interleaving) is NOT under contract: that the task group joins its children and the final winner.close() on failure are assumed"),
  "C20": ("§4 C20", "WriteFlowControl keeps the atomic-section invariant J ((not paused or lost) => no pending drain waiter) through pause_writing, resume_writing, connection_lost and drain - proved at every suspension point of drain under a rely clause letting callbacks and other tasks change the state arbitrarily within J, including cancellation of the awaiting sender; resume/loss loops complete every pending waiter (loop invariants over a counted model of the waiter collection); the socket adapter hands bytes to the transport once, in order, and returns only after drain() returned.",
          "asyncio calls pause_writing/resume_writing per its documented contract with write limits 0 (assumed; sampled against the real transport: KNOWN FINDING F8 - writelines() bypasses it on CPython 3.12.1); futures/deque follow the counted model in stubs/async_backend.py; datagram endpoint twins are not under contract"),
+ "C09": ("§4 C09", "Exception-to-result mapping of the TLS receive paths, checked against the real exception class lattice: AsyncTLSStreamTransport._retry_ssl_method relays the SSL object's outcome unchanged (loop invariant; locks released on every exit), recv/recv_into return end-of-stream iff the cause is the peer's close_notify, or an abrupt end with standard_compatible disabled, and raise for an abrupt end in standard-compatible mode; the blocking SSLStreamTransport.recv_noblock(_into) likewise under the invariant suppress_ragged_eofs == not standard_compatible.",
+         "OpenSSL's detection of truncation at every byte offset is assumed (SSLObject/SSLSocket models); is_ssl_eof_error is replaced by a model (SSLEOFError only, the Python-3.10 string test is not modelled); the constructor's wrap_socket argument, unwrap-on-close and the clients' default-context flag are NOT under contract"),
  "C10": ("§4 C10", "Layer 1: every receive loop (blocking and asynchronous, copying and buffer-filling) is proved exception-safe: on TimeoutError, OSError or a cancellation delivered at the transport await, the pending bytes equal the old pending bytes plus everything the transport returned (nothing held in a dropped local), the exported write view stays exported. Layer 2: StreamReaderBufferedProtocol.buffer_updated is checked for conservation of the bytes the event loop wrote, with nothing assumed about the read waiter still being pending.",
          "an abstract read transport that fails or is cancelled has consumed nothing (assumed; for the asyncio adapter that is layer 2); only buffer_updated of layer 2 is under contract (receive_data*, _wait_for_data, eof_received are not); the server request receivers and the TLS incoming reader are not under contract; KNOWN FINDING F4 is reported, not repaired"),
  "C11": ("§4 C11", "SelectorBaseTransport._retry is proved to keep a two-sided budget invariant (blocked time + remaining budget <= T, remaining budget >= T - elapsed), never to call select with a zero budget, to raise TimeoutError only after the whole budget elapsed and with a finite budget; send_all, the sendmsg loop and both receive loops carry the returned budget across iterations.",
